@@ -33,6 +33,11 @@ type World struct {
 type Options struct {
 	Storage interface{} // defaults to the MemoryStore
 	Tweak   func(cfg *fosite.Config)
+	// Extra factories are appended after the default handler list (agentD: device grant, PAR).
+	Extra []compose.Factory
+	// WrapStore, when set, receives the freshly populated MemoryStore and returns the storage
+	// handed to compose (a wrapper embedding the MemoryStore); World.Store stays the MemoryStore.
+	WrapStore func(st *storage.MemoryStore) interface{}
 }
 
 func NewClient(id, secret string, cfg *fosite.Config) *fosite.DefaultClient {
@@ -76,11 +81,14 @@ func New(opt Options) *World {
 	if opt.Storage != nil {
 		backing = opt.Storage
 	}
+	if opt.WrapStore != nil {
+		backing = opt.WrapStore(st)
+	}
 	strat := &compose.CommonStrategy{
 		CoreStrategy:        compose.NewOAuth2HMACStrategy(cfg),
 		RFC8628CodeStrategy: compose.NewDeviceStrategy(cfg),
 	}
-	p := compose.Compose(cfg, backing, strat,
+	factories := []compose.Factory{
 		compose.OAuth2AuthorizeExplicitFactory,
 		compose.OAuth2AuthorizeImplicitFactory,
 		compose.OAuth2ClientCredentialsGrantFactory,
@@ -89,7 +97,9 @@ func New(opt Options) *World {
 		compose.OAuth2TokenIntrospectionFactory,
 		compose.OAuth2TokenRevocationFactory,
 		compose.OAuth2PKCEFactory,
-	)
+	}
+	factories = append(factories, opt.Extra...)
+	p := compose.Compose(cfg, backing, strat, factories...)
 	return &World{Cfg: cfg, Store: st, Provider: p, Ctx: context.Background()}
 }
 
@@ -108,6 +118,10 @@ func post(form url.Values) *http.Request {
 func get(form url.Values) *http.Request {
 	return &http.Request{Method: "GET", Header: http.Header{}, Form: form, PostForm: url.Values{}}
 }
+
+// Post / Get build harness requests (exported for the per-property packages).
+func Post(form url.Values) *http.Request { return post(form) }
+func Get(form url.Values) *http.Request  { return get(form) }
 
 // ErrName returns the RFC error name of err ("" for nil).
 func ErrName(err error) string {
